@@ -13,6 +13,8 @@ idle-worker case of SumTrees -- or `self` empty)."""
 from dpvc.symexec import Contract, Loop
 from dpvc.symexec2 import Executor2
 from dpvc.verify import Suite, verify_contract
+from dpvc import lean
+from dpvc import replay as dreplay
 
 TC = "dendropy.datamodel.treecollectionmodel"
 
@@ -29,6 +31,12 @@ SCHEMA = {
     "TreeArray.taxon_namespace": "ref:TaxonNamespace",
     "Tree.taxon_namespace": "ref:TaxonNamespace",
     "Tree._is_rooted": "opt bool",
+    # the summary itself: per-split weighted counts and the two totals (contracts/C05.py)
+    "SplitDistribution.split_counts": "map:int:real default=0.0",
+    "SplitDistribution.total_trees_counted": "int",
+    "SplitDistribution.sum_of_tree_weights": "real",
+    "SplitDistribution._trees_counted_for_summaries": "int",
+    "SplitDistribution.use_tree_weights": "opt bool",
 }
 
 
@@ -48,16 +56,36 @@ SETTINGS_EQ = ("self.ignore_edge_lengths is other.ignore_edge_lengths and self.i
 COMPATIBLE = ("(" + SETTINGS_EQ + ") and (self._is_rooted_trees is other._is_rooted_trees "
               "or (len(other._tree_split_bitmasks) == 0 and isnone(other._is_rooted_trees)) or len(self._tree_split_bitmasks) == 0)")
 
+SD_MODS = ["SplitDistribution.split_counts[*]", "SplitDistribution.total_trees_counted[*]", "SplitDistribution.sum_of_tree_weights[*]",
+           "SplitDistribution._trees_counted_for_summaries[*]", "SplitDistribution.use_tree_weights[*]"]
+
+
+def _cnt(x, k):
+    return "ite(has({x}.split_counts, {k}), get({x}.split_counts, {k}), 0.0)".format(x=x, k=k)
+
+
 ALLOWED_ADD = ("TaxonNamespaceIdentityError", "MixedRootingError", "*")
 
 CONTRACTS = [
     Contract(TC + ":TreeArray.update", types={"other": "ref:TreeArray"},
-             requires=aligned("self") + " and " + aligned("other") + " and self != other and " + COMPATIBLE,
-             modifies=LISTS + ["self._is_rooted_trees", "self.ignore_edge_lengths", "self.ignore_node_ages", "self.use_tree_weights"],
+             requires=aligned("self") + " and " + aligned("other") + " and self != other and " + COMPATIBLE +
+                      # every TreeArray owns its SplitDistribution (set once in __init__)
+                      " and self._split_distribution != other._split_distribution",
+             modifies=LISTS + ["self._is_rooted_trees", "self.ignore_edge_lengths", "self.ignore_node_ages", "self.use_tree_weights",
+                               "SplitDistribution.split_counts[*]", "SplitDistribution.total_trees_counted[*]",
+                               "SplitDistribution.sum_of_tree_weights[*]", "SplitDistribution._trees_counted_for_summaries[*]",
+                               "SplitDistribution.use_tree_weights[*]"],
              inline=("__len__",), frame=False,
              ensures={"aligned": aligned("self"),
                       "concatenated": grown("self", "len(other._tree_split_bitmasks)"),
-                      "other-unchanged": aligned("other") + " and len(other._tree_split_bitmasks) == old(len(other._tree_split_bitmasks))"}),
+                      "other-unchanged": aligned("other") + " and len(other._tree_split_bitmasks) == old(len(other._tree_split_bitmasks))",
+                      # the abstract view of the sample (Merge.lean): componentwise addition
+                      "summary-merged[counts]": "forall_int(lambda s: {now} == old({now}) + old({oth}))".format(
+                          now=_cnt("self._split_distribution", "s"), oth=_cnt("other._split_distribution", "s")),
+                      "summary-merged[trees]": "self._split_distribution.total_trees_counted == old(self._split_distribution.total_trees_counted) "
+                                               "+ old(other._split_distribution.total_trees_counted)",
+                      "summary-merged[weights]": "self._split_distribution.sum_of_tree_weights == old(self._split_distribution.sum_of_tree_weights) "
+                                                 "+ old(other._split_distribution.sum_of_tree_weights)"}),
     Contract(TC + ":TreeArray.extend", types={"tree_array": "ref:TreeArray", "return": "ref:TreeArray"},
              requires=aligned("self") + " and " + aligned("tree_array") + " and self != tree_array and self.taxon_namespace == tree_array.taxon_namespace "
                       "and self.ignore_edge_lengths is tree_array.ignore_edge_lengths "
@@ -65,9 +93,16 @@ CONTRACTS = [
                       # compatible rooting in the property's sense: equal, or one side is empty with undefined rooting
                       "and (self._is_rooted_trees is tree_array._is_rooted_trees "
                       "or (len(tree_array._tree_split_bitmasks) == 0 and isnone(tree_array._is_rooted_trees)) "
-                      "or (len(self._tree_split_bitmasks) == 0 and isnone(self._is_rooted_trees)))",
-             modifies=LISTS + ["self._is_rooted_trees"], frame=False, inline=("__len__",),
+                      "or (len(self._tree_split_bitmasks) == 0 and isnone(self._is_rooted_trees))) "
+                      "and self._split_distribution != tree_array._split_distribution",
+             modifies=LISTS + ["self._is_rooted_trees"] + SD_MODS, frame=False, inline=("__len__",),
              ensures={"aligned": aligned("self"), "concatenated": grown("self", "len(tree_array._tree_split_bitmasks)"), "returns-self": "result == self",
+                      "summary-merged[counts]": "forall_int(lambda s: {now} == old({now}) + old({oth}))".format(
+                          now=_cnt("self._split_distribution", "s"), oth=_cnt("tree_array._split_distribution", "s")),
+                      "summary-merged[trees]": "self._split_distribution.total_trees_counted == old(self._split_distribution.total_trees_counted) "
+                                               "+ old(tree_array._split_distribution.total_trees_counted)",
+                      "summary-merged[weights]": "self._split_distribution.sum_of_tree_weights == old(self._split_distribution.sum_of_tree_weights) "
+                                                 "+ old(tree_array._split_distribution.sum_of_tree_weights)",
                       "rooting": "ite(old(len(self._tree_split_bitmasks)) == 0 and isnone(old(self._is_rooted_trees)), "
                                  "self._is_rooted_trees is tree_array._is_rooted_trees, self._is_rooted_trees is old(self._is_rooted_trees))"}),
     Contract(TC + ":TreeArray.__iadd__", types={"tree_array": "ref:TreeArray", "return": "ref:TreeArray"},
@@ -77,9 +112,16 @@ CONTRACTS = [
                       # compatible rooting in the property's sense: equal, or one side is empty with undefined rooting
                       "and (self._is_rooted_trees is tree_array._is_rooted_trees "
                       "or (len(tree_array._tree_split_bitmasks) == 0 and isnone(tree_array._is_rooted_trees)) "
-                      "or (len(self._tree_split_bitmasks) == 0 and isnone(self._is_rooted_trees)))",
-             modifies=LISTS + ["self._is_rooted_trees"], frame=False, inline=("__len__",),
+                      "or (len(self._tree_split_bitmasks) == 0 and isnone(self._is_rooted_trees))) "
+                      "and self._split_distribution != tree_array._split_distribution",
+             modifies=LISTS + ["self._is_rooted_trees"] + SD_MODS, frame=False, inline=("__len__",),
              ensures={"aligned": aligned("self"), "concatenated": grown("self", "len(tree_array._tree_split_bitmasks)"), "returns-self": "result == self",
+                      "summary-merged[counts]": "forall_int(lambda s: {now} == old({now}) + old({oth}))".format(
+                          now=_cnt("self._split_distribution", "s"), oth=_cnt("tree_array._split_distribution", "s")),
+                      "summary-merged[trees]": "self._split_distribution.total_trees_counted == old(self._split_distribution.total_trees_counted) "
+                                               "+ old(tree_array._split_distribution.total_trees_counted)",
+                      "summary-merged[weights]": "self._split_distribution.sum_of_tree_weights == old(self._split_distribution.sum_of_tree_weights) "
+                                                 "+ old(tree_array._split_distribution.sum_of_tree_weights)",
                       "rooting": "ite(old(len(self._tree_split_bitmasks)) == 0 and isnone(old(self._is_rooted_trees)), "
                                  "self._is_rooted_trees is tree_array._is_rooted_trees, self._is_rooted_trees is old(self._is_rooted_trees))"}),
     Contract(TC + ":TreeArray.add_tree", types={"tree": "ref:Tree", "is_bipartitions_updated": "opaque", "index": "opt int", "return": "opaque"},
@@ -104,7 +146,13 @@ class TAExecutor(Executor2):
     lenient = True
 
 
-SUITE = Suite(SCHEMA, [TC, "dendropy.datamodel.treemodel._tree"], CONTRACTS, executor_cls=TAExecutor)
+def _sd_update():
+    from contracts import C05
+    return [c for c in C05.CONTRACTS if c.name == "SplitDistribution.update"]
+
+
+SD_UPDATE = _sd_update()
+SUITE = Suite(SCHEMA, [TC, "dendropy.datamodel.treemodel._tree"], CONTRACTS + SD_UPDATE, executor_cls=TAExecutor)
 
 
 def t1(ctx):
@@ -114,6 +162,16 @@ def t1(ctx):
     from dpvc import replay_c06
     for c in CONTRACTS:
         verify_contract(ctx, SUITE, c, sentinels=False, replay=replay_c06.replay_treearray)
+    from contracts import C05
+    for c in SD_UPDATE:
+        verify_contract(ctx, SUITE, c, sentinels=False, replay=dreplay.replay_by_search(C05._states))
+    lean.check_lemma(ctx, "Merge.lean", ["merge_order_irrelevant", "merge_partition_irrelevant", "merge_empty_block"],
+                     hypotheses={
+                         "merge_order_irrelevant": "update acts on the view (trees, weights, per-split counts) as componentwise addition: "
+                                                   "TreeArray.update.ensures[summary-merged[*]] / SplitDistribution.update.ensures[*] (z3); "
+                                                   "edge-length / node-age multisets per split: bounded (T2) only",
+                         "merge_partition_irrelevant": "as above",
+                         "merge_empty_block": "an empty array has the zero view: SplitDistribution.__init__ (T2: idle-worker scope)"})
 
 
 def replay(ctx, rec):
